@@ -950,6 +950,9 @@ func Run(cfg Config, main func()) Result {
 		s = newSim()
 		simPool = s
 	}
+	if forceRaceGates {
+		cfg.RaceGates = true
+	}
 	s.reset(cfg)
 	s.procs[0] = process{id: 0, name: "controller", alive: true, main: 0}
 	s.nprocs = 1
